@@ -181,6 +181,57 @@ def loops_of(fn, varname):
             if isinstance(n, ast.For) and isinstance(n.target, ast.Name) and n.target.id == varname]
 
 
+MATCH_CALLS = ('match_begin', 'match_end', 'exact_match', 'search', 'match', 'fullmatch')
+
+
+def match_variables(fn):
+    out = []
+    for n in ast.walk(fn):
+        if isinstance(n, ast.Assign) and len(n.targets) == 1 and isinstance(n.targets[0], ast.Name) \
+                and isinstance(n.value, ast.Call) and isinstance(n.value.func, ast.Attribute) and n.value.func.attr in MATCH_CALLS:
+            if n.targets[0].id not in out:
+                out.append(n.targets[0].id)
+    return out
+
+
+def declared_pairs(fn, mv):
+    """pairs (A, X) of regex-match locals whose combination the function itself handles: the branch guarded by X's
+    success contains a test on A (e.g. `if not (around_match and around_match.success)` inside the before/after/since
+    branches).  Other combinations are not explored by the scenario slicing (stated bound)."""
+    pairs = []
+    for n in ast.walk(fn):
+        if not isinstance(n, ast.If):
+            continue
+        tn = _names(n.test) & set(mv)
+        for x in tn:
+            for sub in n.body:
+                for m in ast.walk(sub):
+                    if isinstance(m, ast.If):
+                        for a in (_names(m.test) & set(mv)) - {x}:
+                            if (a, x) not in pairs and (x, a) not in pairs:
+                                pairs.append((a, x))
+    return pairs
+
+
+def run_walker(fn, facts, on_check, clsname, focus=None):
+    """one walk; when the path budget is exceeded, the function is re-walked scenario by scenario: none, each one, and
+    each declared pair of its regex-match locals are allowed to be non-None (the others are assumed None where they
+    are assigned).  Returns (overflowed_after_slicing, scenarios_run)"""
+    w = symx.Walker(fn, facts, on_check, clsname, focus=focus).run()
+    if not w.overflow:
+        return False, 0
+    mv = match_variables(fn)
+    if len(mv) < 3:
+        return True, 0
+    still = False
+    scenarios = [()] + [(v,) for v in mv] + declared_pairs(fn, mv)
+    for keep in scenarios:
+        w2 = symx.Walker(fn, facts, on_check, clsname, focus=focus, max_paths=1500,
+                         assume_none=[v for v in mv if v not in keep]).run()
+        still = still or w2.overflow
+    return still, len(scenarios)
+
+
 def analyse_function(idx, mod, cls, fn, focus=None):
     """-> dict label -> list of (verdict, why, fields, line, checkpoint kind, names)"""
     res = {}
@@ -219,8 +270,8 @@ def analyse_function(idx, mod, cls, fn, focus=None):
         res.setdefault(label, []).append((v[0], spans.strip_ids(v[1]), tuple(sorted(flds)), getattr(node, 'lineno', fn.lineno),
                                           why, tuple(names), kind, retn))
 
-    w = symx.Walker(fn, facts, on_check, cls.name if cls else None, focus=focus).run()
-    return res, w.overflow
+    overflow, scen = run_walker(fn, facts, on_check, cls.name if cls else None, focus=focus)
+    return res, (overflow, scen)
 
 
 def qual(cls, fn):
@@ -232,6 +283,7 @@ def run(chk):
     chk.explanation = ('offset algebra: linear normal forms of (start, length, text) at every write of a span object, '
                        'length effect of the normalisation pipeline, inclusive-end construction in the models')
     run_lenpres(chk, idx)
+    run_modpair(chk, idx)
     chk.rule('C01.span', 'span triples of output-flowing objects are coherent wherever written (I1 copy, I2 slice, '
              'I3 match, I4 affix growth, I5 shrink)', floor=30)
     n_fn = 0
@@ -310,7 +362,10 @@ def run(chk):
                 chk.bad('C01.span', mod.path, construct, detail, 'span not coherent in %s for `%s`: %s' % (q, label, detail), line)
             else:
                 unrecognised.append('%s:%d %s: span write idiom not recognised for `%s` (%s)' % (mod.rel, line, q, label, detail[:160]))
-        if overflow:
+        if overflow[1]:
+            chk.observe('%s %s: path budget exceeded; re-analysed in %d scenarios (each regex-match local alone, and the pairs the '
+                        'function handles together)%s' % (mod.name, q, overflow[1], '; some scenarios still exceed the budget' if overflow[0] else ''))
+        elif overflow[0]:
             chk.observe('%s %s: path budget exceeded, remaining paths not explored' % (mod.name, q))
     chk.extra['functions_with_span_writes'] = n_fn
     if unrecognised:
@@ -621,6 +676,22 @@ def run_lenpres(chk, idx):
                         f_ = x.value.func
                         if isinstance(f_.value, ast.Name) and f_.value.id == folded and f_.attr in ('index', 'find', 'rfind', 'rindex'):
                             offnames.add(x.targets[0].id)
+                # match objects of searches run over `folded`: their .start()/.end()/.span() are offsets into it
+                mobjs = set()
+                for x in ast.walk(fn):
+                    it = x.iter if isinstance(x, ast.For) else x.value if isinstance(x, ast.Assign) else None
+                    if isinstance(it, ast.Call) and isinstance(it.func, ast.Attribute) \
+                            and it.func.attr in ('finditer', 'search', 'match', 'fullmatch') \
+                            and any(isinstance(a, ast.Name) and a.id == folded for a in it.args):
+                        tg = x.target if isinstance(x, ast.For) else x.targets[0]
+                        if isinstance(tg, ast.Name):
+                            mobjs.add(tg.id)
+                for x in ast.walk(fn):
+                    if isinstance(x, ast.Assign) and len(x.targets) == 1 and isinstance(x.targets[0], ast.Name):
+                        for c_ in ast.walk(x.value):
+                            if isinstance(c_, ast.Call) and isinstance(c_.func, ast.Attribute) and isinstance(c_.func.value, ast.Name) \
+                                    and c_.func.value.id in mobjs and c_.func.attr in ('start', 'end', 'span'):
+                                offnames.add(x.targets[0].id)
                 grew = True
                 while grew:
                     grew = False
@@ -654,3 +725,174 @@ def run_lenpres(chk, idx):
     out = []
     eff._block(um, None, ctl.body[0].body, {'s': ('same', None)}, out, 0)
     chk.control('C01.lenpres', bool(out) and not out[0][0])
+
+
+# ---------------------------------------------------------------------------------------------------------------
+# C01.modpair - push/pop pairing around an inner parse: a parser that cuts a modifier off the ExtractResult it was
+# given (start += a, length -= b), parses the remainder and then widens the returned result again (start -= c,
+# length += d) must give back exactly the span it received: a == c and b == d on every path that restores.
+
+def _subst(lin, mapping):
+    out = Lin(lin.c)
+    for a, k in lin.t.items():
+        out = out + (mapping[a].scale(k) if a in mapping else Lin(0, {a: k}))
+    return out
+
+
+def conditional_match_facts_hold(idx):
+    """ConditionalMatch.length == len(ConditionalMatch.group()) read from the class"""
+    c = idx.cls('recognizers_text.utilities.ConditionalMatch')
+    ln = c.methods.get('length')
+    if ln is None:
+        return False
+    rets = [ast.unparse(n.value) for n in ast.walk(ln) if isinstance(n, ast.Return) and n.value is not None]
+    grp = [ast.unparse(n.value) for st in c.node.body if isinstance(st, ast.FunctionDef) and st.name == 'group'
+           and not st.args.args[1:] for n in ast.walk(st) if isinstance(n, ast.Return) and n.value is not None]
+    return len(rets) == 1 and len(grp) == 1 and rets[0] in ('len(%s) or 0' % grp[0], 'len(%s)' % grp[0])
+
+
+def run_modpair(chk, idx):
+    chk.rule('C01.modpair', 'a parser that strips a modifier from its source before the inner parse restores exactly what it '
+             'stripped: the returned span equals the span it was given', floor=1, control=True)
+    if not conditional_match_facts_hold(idx):
+        raise AnalysisError('ConditionalMatch.length is no longer len(group()): the fact C01.modpair relies on must be re-read')
+    chk.assume('C01.modpair: a successful RegExpUtility.match_begin(pattern, <entity>.text, trim=True) starts at offset 0 of '
+               'the entity text (the code relies on it itself: it advances start by the match length alone)')
+    targets = []
+    for mod, cls, fn in lib_functions(idx):
+        if cls is None or fn.name != 'parse' or not is_parser_class(idx, cls):
+            continue
+        params = [a.arg for a in fn.args.args if a.arg != 'self']
+        if not params:
+            continue
+        src = params[0]
+        writes_src = any(isinstance(n, ast.Attribute) and isinstance(n.ctx, ast.Store) and n.attr in ('start', 'length')
+                         and isinstance(n.value, ast.Name) and n.value.id == src for n in ast.walk(fn))
+        if writes_src:
+            targets.append((mod, cls, fn, src))
+    for mod, cls, fn, src in targets:
+        _modpair_function(chk, idx, mod, cls, fn, src, chk)
+    # positive control: restore one character short
+    ctl = ast.parse('''
+class P(Parser):
+    def parse(self, source, reference=None):
+        m = RegExpUtility.match_begin(self.config.before_regex, source.text, True)
+        has = False
+        mod_str = ''
+        if m and m.success:
+            has = True
+            source.start += m.length
+            source.length -= m.length
+            source.text = source.text[m.length:]
+            mod_str = m.group()
+        result = self.parse_result(source, reference)
+        if has and result.value:
+            result.length += len(mod_str) - 1
+            result.start -= len(mod_str)
+            result.text = mod_str + result.text
+        return result
+''').body[0]
+
+    class _Sink:
+        def __init__(self):
+            self.bad_n = 0
+
+        def bad(self, *a, **k):
+            self.bad_n += 1
+
+        def ok(self, *a, **k):
+            pass
+
+        def observe(self, *a, **k):
+            pass
+
+        def consulted(self, *a, **k):
+            pass
+    sink = _Sink()
+    um = idx.mod('recognizers_text.utilities')
+    _modpair_function(sink, idx, um, None, ctl.body[0], 'source', chk, clsname='P')
+    chk.control('C01.modpair', sink.bad_n > 0)
+
+
+_CBBA = {}
+
+
+def _check_both_before_after_false(idx):
+    """True when every date-time resource class defines CheckBothBeforeAfter = False"""
+    if 'v' not in _CBBA:
+        from ..consteval import Resources
+        R = Resources(idx)
+        vals = []
+        for m in idx.mods.values():
+            if m.name.startswith('recognizers_date_time.resources.'):
+                for c in m.classes.values():
+                    v = R.values(c).get('CheckBothBeforeAfter')
+                    if v is not None:
+                        vals.append(v)
+        _CBBA['v'] = bool(vals) and all(v is False for v in vals)
+    return _CBBA['v']
+
+
+def _modpair_function(out, idx, mod, cls, fn, src, chk, clsname=None):
+    facts = symx.facts_from_index(idx, mod, spans.SPAN_CLASSES)
+    facts.conditional_match = True
+    for m_ in ('match_begin', 'match_end', 'exact_match'):
+        facts.method_types[m_] = 'ConditionalMatch'
+    facts.method_types['parse'] = 'ParseResult'
+    src_oid = ('var', src)
+    s0, l0 = Lin.atom(('fld', src_oid, 'start')), Lin.atom(('fld', src_oid, 'length'))
+    seen = {}
+    suffix_mods_dead = _check_both_before_after_false(idx)
+
+    def on_check(w, st, oid, flds, node, why):
+        if oid == src_oid or why not in ('escape', 'exit', 'append'):
+            return
+        if not (set(flds) & {'start', 'length'}):
+            return
+        snap = [x for x in st.derived.get(oid, ()) if x[0] == src_oid]
+        if not snap:
+            return
+        # paths on which the restoring blocks did not run (value falsy) are not obligations
+        names = spans.names_of(st, oid)
+        if any(st.tri.get(n + '.value') is not None and 'truthy' not in st.tri.get(n + '.value') for n in names):
+            return
+        # modifiers found at the END of the entity text (match_is_after) only exist when the extractor attaches suffix
+        # modifiers, i.e. when a culture sets CheckBothBeforeAfter; with the flag False everywhere those paths are dead
+        if suffix_mods_dead and st.tri.get('match_is_after') == frozenset(['truthy']):
+            seen['suffix-paths'] = seen.get('suffix-paths', 0) + 1
+            return
+        _, cs, cl = snap[0]
+        mapping = {('fld', oid, 'start'): cs, ('fld', oid, 'length'): cl}
+        fs = _subst(as_lin(w.field(st, oid, 'start')), mapping)
+        fl = _subst(as_lin(w.field(st, oid, 'length')), mapping)
+        ds, dl = fs - s0, fl - l0
+        key = (spans.strip_ids(repr(ds)), spans.strip_ids(repr(dl)))
+        seen[key] = seen.get(key, 0) + 1
+        if key not in seen or seen[key] == 1:
+            seen.setdefault('first:' + repr(key), (getattr(node, 'lineno', fn.lineno), list(st.conds[-6:])))
+
+    overflow, scen = run_walker(fn, facts, on_check, clsname or (cls.name if cls else None), focus=None)
+    q = (clsname or cls.name) + '.parse'
+    if seen.get('suffix-paths'):
+        out.observe('%s: %d suffix-modifier paths not judged (CheckBothBeforeAfter is False in every culture)' % (q, seen['suffix-paths']))
+    paths = sum(v for k, v in seen.items() if isinstance(k, tuple))
+    if not paths:
+        if clsname is None:
+            out.observe('%s: strips its source but no restored result derived from it was found' % q)
+        return
+    for k, n in sorted((k, v) for k, v in seen.items() if isinstance(k, tuple)):
+        ds, dl = k
+        line, conds = seen['first:' + repr(k)]
+        construct = '%s push/pop pairing' % q
+        if ds == '0' and dl == '0':
+            out.ok('C01.modpair', mod.path, construct, 'restored span == received span (%d paths)' % n, line)
+        else:
+            out.bad('C01.modpair', mod.path, construct, 'start %+s, length %+s' % (ds, dl),
+                    '%s: after stripping a modifier from the source, parsing the rest and restoring the modifier, the returned '
+                    'span differs from the span received: start differs by %s, length by %s (path: %s) - what is cut off the '
+                    'source and what is added back to the result no longer agree' % (q, ds, dl, ' & '.join(conds[-4:])), line)
+    if scen:
+        out.observe('%s: C01.modpair re-analysed in %d scenarios (each regex-match local alone, and the pairs the function handles together)%s'
+                    % (q, scen, '; some scenarios still exceed the path budget' if overflow else ''))
+    elif overflow:
+        out.observe('%s: path budget exceeded in C01.modpair, remaining paths not explored' % q)
